@@ -7,6 +7,11 @@ R-MASKTABLE  mask(): parameter -> numpy.ma.masked_* function table, each applied
 R-INVMASK    in pncbo the stored value flows through masked_invalid.
 R-MASKKEEP   no mask-dropping conversion (np.asarray, .view(np.ndarray), .filled, .data) between the
              computed value and the store, in pncbo and in eval.
+R-MASKCARRY  mask(): every numpy.ma.masked_* step keeps the cells masked so far.  Contract table read from numpy/ma/core.py:
+             masked_where and what is built on it (greater, less, equal, inside, outside, ...) and masked_invalid or the
+             incoming mask into the result; masked_values rebuilds the mask from filled(x, value), which keeps an earlier
+             mask only where the filled cell compares equal to value again - not for integer data and a fractional
+             value - so its call must be followed by the re-application of the mask read before it.
 R-RESDTYPE   the result variable takes its dtype from the computed value (values=) not from the left operand.
 R-COORDPASS  coordinate variables are passed through from the left operand, before any arithmetic/masking.
 """
@@ -68,6 +73,7 @@ def run(ctx):
                  ('R-INVMASK', 'pncbo: stored value flows through np.ma.masked_invalid'),
                  ('R-MASKKEEP', 'no mask-dropping conversion on the value path (pncbo, eval)'),
                  ('R-RESDTYPE', 'result dtype follows the computed value'),
+                 ('R-MASKCARRY', 'mask(): each masked_* step keeps the cells that are already masked (numpy.ma contract table)'),
                  ('R-COORDPASS', 'coordinate variables passed through from the left operand / unmasked')):
         ctx.rule(r, d)
     fm = src.mod(FILES)
@@ -209,6 +215,8 @@ def run(ctx):
         ctx.ok('R-COORDPASS', 'mask() coordinate branch', where, 'coordinate variables assigned unmodified on the %d paths taken for them, no masked_* call' % ncoord)
     else:
         ctx.violation(Finding('R-COORDPASS', FILES, q, api_stmt(badp[1][0]) if badp[1] else vloop, 'coordinate variables are not passed through unmasked before the masked_* chain'))
+    # ---------------- R-MASKCARRY in mask(): every step of the chain keeps the cells masked so far
+    check_mask_carry(ctx, fn, vloop, q, where)
     # ---------------- pncbo
     q = 'pncbo'
     where = 'src/PseudoNetCDF/%s %s' % (FUNCS, q)
@@ -480,7 +488,8 @@ def run(ctx):
     mfn2 = ctx.src.mod(FILES).func('PseudoNetCDFFile.mask')
     wcond = None
     for st in iter_stmts(mfn2.body):
-        if isinstance(st, ast.If) and any(isinstance(c, ast.Call) and (dotted(c.func) or '').endswith('masked_where') for s2 in st.body for c in ast.walk(s2)) \
+        if isinstance(st, ast.If) and any(isinstance(c, ast.Call) and (dotted(c.func) or '').endswith('masked_where') and c.args and 'where' in _names(c.args[0])
+                                          for s2 in st.body for c in ast.walk(s2)) \
                 and norm(st.test) != 'where is not None':
             wcond = st
     wmask = 'src/PseudoNetCDF/%s PseudoNetCDFFile.mask' % FILES
@@ -523,6 +532,107 @@ def run(ctx):
             ctx.undec('R-WHEREAPPLY', 'condition', wmask, 'condition outside the evaluated fragment: %s' % norm(wcond.test)[:80])
         else:
             ctx.ok('R-WHEREAPPLY', 'condition', wmask, '%d cases (tied/untied x same/other dimensions x same/other shape) as stated' % len(cases))
+
+
+CARRY = ('masked_where', 'masked_greater', 'masked_greater_equal', 'masked_less', 'masked_less_equal', 'masked_equal',
+         'masked_not_equal', 'masked_inside', 'masked_outside', 'masked_invalid')
+REBUILD = ('masked_values',)
+MASKREAD = ('getmaskarray', 'getmask')
+
+
+def _reads_mask_of(e, datatext):
+    """does expression e read the mask of the expression spelled datatext?"""
+    for n in walk_expr(e):
+        if isinstance(n, ast.Call) and (dotted(n.func) or '').split('.')[-1] in MASKREAD and n.args and norm(n.args[0]) == datatext:
+            return True
+        if isinstance(n, ast.Attribute) and n.attr in ('mask', '_mask') and norm(n.value) == datatext:
+            return True
+    return False
+
+
+def _names(e):
+    return set(n.id for n in ast.walk(e) if isinstance(n, ast.Name))
+
+
+def _stores(st, name):
+    for n in ast.walk(st):
+        if isinstance(n, ast.Name) and n.id == name and isinstance(n.ctx, ast.Store):
+            return True
+    return False
+
+
+def _block_of(st):
+    p = getattr(st, '_parent', None)
+    for f in ('body', 'orelse', 'finalbody'):
+        b = getattr(p, f, None)
+        if isinstance(b, list) and st in b:
+            return b
+    return None
+
+
+def check_mask_carry(ctx, fn, vloop, q, where):
+    n = 0
+    for c in [c for st in vloop.body for c in walk_expr(st) if isinstance(c, ast.Call)]:
+        d = dotted(c.func) or ''
+        last = d.split('.')[-1]
+        if not (last.startswith('masked_') and d.startswith(('np.ma.', 'numpy.ma.', 'ma.'))):
+            continue
+        n += 1
+        st = _stmt(c)
+        oid = '%s@%s' % (last, norm(c.args[1] if last == 'masked_where' and len(c.args) > 1 else c.args[0]) if c.args else last)
+        if last in CARRY:
+            ctx.ok('R-MASKCARRY', oid, where, 'np.ma.%s ors the incoming mask into its result' % last)
+            continue
+        if last not in REBUILD:
+            ctx.undec('R-MASKCARRY', oid, where, 'np.ma.%s is not in the contract table' % last)
+            continue
+        data = c.args[0] if c.args else None
+        datatext = norm(data) if data is not None else None
+        # (a) nested: masked_where(<mask of the same data>, masked_values(data, v))
+        outer = getattr(c, '_parent', None)
+        nested = isinstance(outer, ast.Call) and (dotted(outer.func) or '').split('.')[-1] == 'masked_where' and len(outer.args) > 1 \
+            and outer.args[1] is c and _reads_mask_of(outer.args[0], datatext)
+        if nested:
+            ctx.ok('R-MASKCARRY', oid, where, 'np.ma.%s result is re-masked with the mask of its own input in the same expression' % last)
+            continue
+        # (b) statement form: P = mask of run; run = masked_values(run, v); run = masked_where(.. P .., run)
+        good = False
+        why = 'the mask the values carry before np.ma.%s is not re-applied after it' % last
+        blk = _block_of(st)
+        if isinstance(st, ast.Assign) and len(st.targets) == 1 and isinstance(st.targets[0], ast.Name) and isinstance(data, ast.Name) \
+                and st.targets[0].id == data.id and blk is not None:
+            run = data.id
+            i = blk.index(st)
+            saved = set()
+            for prev in blk[:i]:
+                if _stores(prev, run):
+                    saved = set()
+                if isinstance(prev, ast.Assign) and len(prev.targets) == 1 and isinstance(prev.targets[0], ast.Name) \
+                        and _reads_mask_of(prev.value, run):
+                    saved.add(prev.targets[0].id)
+                else:
+                    saved -= set(p for p in saved if _stores(prev, p))
+            for nxt in blk[i + 1:]:
+                hit = False
+                for c2 in walk_expr(nxt):
+                    if isinstance(c2, ast.Call) and (dotted(c2.func) or '').split('.')[-1] == 'masked_where' and len(c2.args) > 1 \
+                            and norm(c2.args[1]) == run and (_names(c2.args[0]) & saved):
+                        hit = True
+                if hit and isinstance(nxt, ast.Assign) and len(nxt.targets) == 1 and norm(nxt.targets[0]) == run:
+                    good = True
+                    break
+                if _stores(nxt, run) or any(_stores(nxt, p) for p in saved):
+                    break
+            if not saved:
+                why = 'the mask the values carry before np.ma.%s is not read before the call, so it cannot be re-applied' % last
+        if good:
+            ctx.ok('R-MASKCARRY', oid, where, 'mask read before np.ma.%s and re-applied with masked_where right after it' % last)
+        else:
+            ctx.violation(Finding('R-MASKCARRY', FILES, q, st,
+                                  'np.ma.%s rebuilds the mask from filled(x, value): cells masked in the input or by an earlier predicate '
+                                  'come back unmasked (holding int(value)) for integer data and a fractional value; %s' % (last, why)), oid=oid)
+    if n < 8:
+        raise AnalysisError('R-MASKCARRY: only %d masked_* calls found in the variable loop of mask() (8 confirmed by reading)' % n)
 
 
 def _stmt(node):
